@@ -292,6 +292,93 @@ example :
     rw [numNames_toList] at this
     exact absurd this (by simp)
 
+/-! ## the reduce line and the whole transition line -/
+
+theorem arrow_toList : "-->".toList = ['-', '-', '>'] := by decide
+
+theorem trReduceStr_toList (names : Nat → String) (G : Grammar) (q r : Nat) :
+    (trReduceStr names G q r).toList = Nat.toDigits 10 q ++ (':' :: ((names (G.lhsOf r)).toList ++
+      ('-' :: '-' :: '>' :: symsL names (G.rhsOf r)))) := by
+  unfold trReduceStr
+  rw [String.toList_append, String.toList_append, String.toList_append, String.toList_append,
+    symsStr_toList, Nat.toString_eq_repr, Nat.toList_repr, colon_toList, arrow_toList]
+  simp
+
+/-- the line of a reduce transition determines the state and the content of the rule (the digits end at
+    the first `:`, the left-hand side with `-->` at the first blank or at the end of the line) — for
+    spellings that are injective and contain no blank; no condition on `:` -/
+theorem tr_reduce_injective (names : Nat → String) (G : Grammar)
+    (hinj : ∀ a b, names a = names b → a = b)
+    (hnb : ∀ x, ∀ c ∈ (names x).toList, ¬ c = ' ')
+    (q q' r r' : Nat) (h : trReduceStr names G q r = trReduceStr names G q' r') :
+    q = q' ∧ G.lhsOf r = G.lhsOf r' ∧ G.rhsOf r = G.rhsOf r' := by
+  have h1 := congrArg String.toList h
+  rw [trReduceStr_toList, trReduceStr_toList] at h1
+  obtain ⟨hq, ht⟩ := split_sep (· = ':') _ _ _ _ (digits_nc q) (digits_nc q') (by simp) (by simp) h1
+  have ht := (List.cons.inj ht).2
+  have l3 : ∀ c ∈ ['-', '-', '>'], ¬ c = ' ' := by decide
+  have h' : ((names (G.lhsOf r)).toList ++ ['-', '-', '>']) ++ symsL names (G.rhsOf r) =
+      ((names (G.lhsOf r')).toList ++ ['-', '-', '>']) ++ symsL names (G.rhsOf r') := by
+    simpa using ht
+  obtain ⟨hl, hr⟩ := split_sep (· = ' ') _ _ _ _ (nb_app _ _ (hnb _) l3) (nb_app _ _ (hnb _) l3)
+    (symsL_head _ _) (symsL_head _ _) h'
+  exact ⟨toDigits_inj _ _ hq, hinj _ _ (String.toList_inj.1 (List.append_cancel_right hl)),
+    symsL_inj names hinj hnb _ _ hr⟩
+
+/-- a shift line is never a reduce line: the name would contain a blank (non-empty right-hand side) or
+    be exactly `lhs-->` (empty right-hand side) -/
+theorem tr_shift_ne_reduce (names : Nat → String) (G : Grammar)
+    (hnb : ∀ x, ∀ c ∈ (names x).toList, ¬ c = ' ')
+    (harrow : ∀ a b, names a ≠ names b ++ "-->")
+    (q q' : Nat) (a : Sym) (r : Nat) (h : trShiftStr names q a = trReduceStr names G q' r) : False := by
+  have h1 := congrArg String.toList h
+  rw [trShiftStr_toList, trReduceStr_toList] at h1
+  obtain ⟨_, ht⟩ := split_sep (· = ':') _ _ _ _ (digits_nc q) (digits_nc q') (by simp) (by simp) h1
+  have ht := (List.cons.inj ht).2
+  cases hrhs : G.rhsOf r with
+  | nil =>
+    rw [hrhs] at ht
+    apply harrow a (G.lhsOf r)
+    apply String.toList_inj.1
+    rw [String.toList_append, arrow_toList, ht]
+    simp [symsL]
+  | cons x xs =>
+    rw [hrhs] at ht
+    apply hnb a ' ' _ rfl
+    rw [ht]
+    simp [symsL]
+
+/-- the line of a transition determines the state, the kind of the transition, the symbol of a shift /
+    goto transition and the content of the rule of a reduce transition — for spellings that are
+    injective, contain no blank, and of which none is another one followed by `-->` -/
+theorem tr_line_injective (names : Nat → String) (G : Grammar)
+    (hinj : ∀ a b, names a = names b → a = b)
+    (hnb : ∀ x, ∀ c ∈ (names x).toList, ¬ c = ' ')
+    (harrow : ∀ a b, names a ≠ names b ++ "-->")
+    (e e' : Nat × Bool × Nat) (h : trLineStr names G e = trLineStr names G e') :
+    e.1 = e'.1 ∧ e.2.1 = e'.2.1 ∧ (e.2.1 = false → e.2.2 = e'.2.2) ∧
+    (e.2.1 = true → G.lhsOf e.2.2 = G.lhsOf e'.2.2 ∧ G.rhsOf e.2.2 = G.rhsOf e'.2.2) := by
+  obtain ⟨q, b, x⟩ := e
+  obtain ⟨q', b', x'⟩ := e'
+  cases b <;> cases b' <;> simp only [trLineStr, Bool.false_eq_true, if_false, if_true] at h
+  · obtain ⟨h1, h2⟩ := tr_shift_injective names hinj q q' x x' h
+    exact ⟨h1, rfl, fun _ => h2, (fun hc => by cases hc)⟩
+  · exact (tr_shift_ne_reduce names G hnb harrow q q' x x' h).elim
+  · exact (tr_shift_ne_reduce names G hnb harrow q' q x' x h.symm).elim
+  · obtain ⟨h1, h2, h3⟩ := tr_reduce_injective names G hinj hnb q q' x x' h
+    exact ⟨h1, rfl, (fun hc => by cases hc), fun _ => ⟨h2, h3⟩⟩
+
+/-- the hypothesis `harrow` is needed: with the (injective, blank-free, nonempty) spellings `A-->` = 0,
+    `A` = 1 and the empty rule `A → ε`, the shift line on symbol 0 is the reduce line of that rule -/
+def arrowNames (n : Nat) : String :=
+  match n with
+  | 0 => "A-->" | 1 => "A" | n + 2 => "z" ++ toString n
+
+def arrowG : Grammar := { nT := 0, rules := [⟨1, []⟩] }
+
+example : trLineStr arrowNames arrowG (7, false, 0) = trLineStr arrowNames arrowG (7, true, 0) ∧
+    trLineStr arrowNames arrowG (7, false, 0) = "7:A-->" := by decide
+
 #print axioms set_line_injective
 #print axioms follow_line_injective
 #print axioms C18_listing_sets
@@ -299,5 +386,7 @@ example :
 #print axioms C18_listing_trans
 #print axioms tr_shift_injective
 #print axioms trReduceStr_prefix
+#print axioms tr_reduce_injective
+#print axioms tr_line_injective
 
 end Y.Props
